@@ -1249,7 +1249,8 @@ def _kymo_from_image_stack(
     # Extract the kymograph data along the line of the tether
     if adjacent_lines < 0:
         raise ValueError("The requested number of `adjacent_lines` must not be negative.")
-    xmin = int(np.floor(x1))
+    # A tether end left of the (cropped) image must not turn into a negative, wrapping index
+    xmin = max(int(np.floor(x1)), 0)
     xmax = int(np.floor(x2)) + 1
     ymin = int(np.floor(y1)) - adjacent_lines
     ymax = int(np.floor(y2)) + adjacent_lines + 1
